@@ -221,7 +221,6 @@ func runL1TwicePrep(seed uint64, id int, prep func(sc *L1Scenario), build L1Buil
 	return sc2.Case
 }
 
-var two64 = new(big.Int).Lsh(big.NewInt(1), 64)
 
 // whalePrep gives user 7 more than 2^66 of every denom, so that an escrow can hold more than 2^64
 func whalePrep(sc *L1Scenario) {
